@@ -11,7 +11,8 @@
 From Coq Require Import String ZArith List Bool.
 From Coq.Strings Require Import Byte.
 From V Require Import Base.Bytes ASN1.DerBase ASN1.DerHeader ASN1.DerHeaderProofs ASN1.DerPrim ASN1.DerPrimProofs
-  ASN1.DerModel ASN1.DerStructProofs ASN1.DerSimProofs ASN1.DerHeadline ASN1.DerTotalProofs.
+  ASN1.DerModel ASN1.DerStructProofs ASN1.DerSimProofs ASN1.DerHeadline ASN1.DerTotalProofs
+  ASN1.DerRoundTrip ASN1.DerRoundTripField ASN1.Differences ASN1.DerPrefixProofs ASN1.DerGenTie Base.GoInt gen.Asn1.
 Import ListNotations.
 Local Open Scope Z_scope.
 
@@ -154,11 +155,71 @@ Theorem declared_length_within_input : forall v t p d h utag inner rest,
 Proof. exact content_within_input. Qed.
 Print Assumptions declared_length_within_input.
 
+(* the guard itself, as it stands in asn1/asn1.go today (translated on every run): invalidLength is
+   "declared length > octets left", also when offset + length wraps around *)
+Theorem length_guard_as_in_source : forall off len slen,
+  0 <= off <= slen -> slen <= max_i64 -> 0 <= len <= max_i64 ->
+  invalid_length_gen off len slen = (slen - off <? len).
+Proof. exact invalid_length_meaning. Qed.
+Print Assumptions length_guard_as_in_source.
+
 (* no input makes either decoder panic or loop, for any type, any parameters (the target is a
    non-nil pointer: D5 is a property of the target, outside the quantifier) *)
 Theorem no_panic : forall v t toks d, unmarshal v t toks d <> Panic /\ unmarshal v t toks d <> Hang.
 Proof. exact unmarshal_total. Qed.
 Print Assumptions no_panic.
+
+(* prefix property: for a required (non-optional) top-level element the result depends only on the
+   consumed octets - whatever follows them is returned untouched.  (An OPTIONAL element looks at the
+   next header by design.  Side condition: parseField reports "explicit tag has no child" when nothing at
+   all follows an explicit header, so a zero-length explicit element needs a non-empty continuation if
+   it had one.) *)
+Theorem prefix_property : forall v t toks d x rest,
+  p_optional (parse_params v toks) = false -> unmarshal v t toks d = Ok (x, rest) ->
+  exists u, d = u ++ rest /\ forall rest', (rest' = [] -> rest = []) -> unmarshal v t toks (u ++ rest') = Ok (x, rest').
+Proof. intros v t toks d x rest. unfold unmarshal. apply (parse_field_prefix v v). intros b; reflexivity. Qed.
+Print Assumptions prefix_property.
+
+(* ---------------- Marshal side ---------------- *)
+
+(* DER uniqueness of the primitive contents: what the strict parser accepts is what the encoder writes *)
+Theorem primitive_contents_der_unique :
+  (forall c z, parse_int64_with (check_integer false) c = Ok z -> int64_enc z = c) /\
+  (forall c z, parse_bigint_with (check_integer false) c = Ok z -> bigint_enc z = c) /\
+  (forall c b, parse_bool c = Ok b -> c = [if b then xff else x00]) /\
+  (forall c body n, parse_bitstring c = Ok (body, n) -> bitstring_enc body n = c) /\
+  (forall c l, ~ oid_leading80 c -> parse_oid (parse_base128 Fork) false c = Ok l -> oid_enc l = Ok c) /\
+  (forall c t, parse_gentime false c = Ok t -> gentime_enc t = Ok c) /\
+  (forall c t, parse_time_layout false false false c = None -> parse_utctime c = Ok t -> utctime_enc t = Ok c).
+Proof.
+  repeat split.
+  - exact int64_parse_emit. - exact bigint_parse_emit. - exact bool_parse_emit. - exact bitstring_parse_emit.
+  - exact oid_parse_emit_fork. - exact gentime_parse_emit. - exact utctime_parse_emit.
+Qed.
+Print Assumptions primitive_contents_der_unique.
+
+(* integers land in the range of their Go type *)
+Theorem integer_ranges :
+  (forall chk c z, parse_int32_with chk c = Ok z -> -2147483648 <= z <= 2147483647) /\
+  (forall chk c z, parse_int64_with chk c = Ok z -> chk c = Ok tt -> c <> [] -> -9223372036854775808 <= z < 9223372036854775808).
+Proof. split; [exact int32_range|intros chk c z; exact (int64_range c chk z)]. Qed.
+Print Assumptions integer_ranges.
+
+(* Marshal(Unmarshal(DER)) = DER, PARTIAL: proved for untagged values of the primitive kinds
+   (BOOLEAN, INTEGER into int / int32 / int64 / *big.Int, ENUMERATED, BIT STRING, OID, OCTET STRING,
+   PrintableString / UTF8String as Marshal chooses them, UTCTime with seconds, GeneralizedTime outside
+   1950..2049).  The full statement - every type, tagged / optional / explicit fields, structs, SEQUENCE OF,
+   RawValue, RawContent - is checked differentially by the harness (oracle "Marshal(Unmarshal(DER))"),
+   not proved: see props/C10.json "partial". *)
+Definition marshal_unmarshal_der_full_statement : Prop :=
+  forall t toks d x, (* der_canonical t toks d -> *) unmarshal Fork t toks d = Ok (x, []) -> marshal Fork t toks x = Ok d.
+Theorem marshal_unmarshal_der_partial : forall t d x rest,
+  plain_leaf t = true -> ~ long_tag_leading80 d ->
+  parse_field Fork (fun _ => leaves_of Fork false) t params0 d = Ok (x, rest) ->
+  (forall h utag inner rest', header_phase (parse_base128 Fork) t params0 d = Ok (HBody h utag inner rest') -> leaf_canonical t utag inner) ->
+  make_field Fork t params0 x = Ok (consumed d rest).
+Proof. exact leaf_field_roundtrip. Qed.
+Print Assumptions marshal_unmarshal_der_partial.
 
 (* non-vacuity *)
 Example header_examples :
@@ -185,4 +246,12 @@ Example D_examples :
   unmarshal Fork TOid [] (hex "0603800105"%string) = Ok (VOid [0; 1; 5], []) /\ unmarshal Upstream TOid [] (hex "0603800105"%string) = ErrSyntax /\
   unmarshal Upstream TTime [] (hex "181132303230303130313030303030302e355a"%string) = Ok (VTime (mkTime 2020 1 1 0 0 0 500000000 0), []) /\
   unmarshal Fork TTime [] (hex "181132303230303130313030303030302e355a"%string) = ErrOther.
+Proof. repeat split; vm_compute; reflexivity. Qed.
+
+Example roundtrip_examples :
+  unmarshal Fork TBigInt [] (hex "0209008000000000000000"%string) = Ok (VInt 9223372036854775808, []) /\
+  marshal Fork TBigInt [] (VInt 9223372036854775808) = Ok (hex "0209008000000000000000"%string) /\
+  marshal Fork (TStruct true (FCons [] (TInt true) FNil)) [] (VStruct (Some (hex "3003020105"%string)) [VInt 7]) = Ok (hex "3003020105"%string) /\
+  marshal Upstream (TSeqOf true (TInt true)) [] (VList [VInt 2; VInt 1]) = Ok (hex "3106020101020102"%string) /\
+  marshal Fork (TSeqOf true (TInt true)) [] (VList [VInt 2; VInt 1]) = Ok (hex "3106020102020101"%string).
 Proof. repeat split; vm_compute; reflexivity. Qed.
